@@ -64,6 +64,21 @@ CLAIMED["C09"] = dict(
          "their outcome with the from-scratch model at every solve of every generated history (so the tie is bounded by the generator).",
     technique="Coq proof (graph reachability, induction) + exact differential check of isolation flags at every solve")
 
+CLAIMED["C04"] = dict(
+    text="Proof over a literal integer-time Gallina model (Lib/Sched.v) of SimTimeCondition/TimeOfDayCondition.evaluate, the two stable "
+         "sorts, the presolve/rule loop and the outer loop of run_sim: AT TIME t is true exactly in the step containing t with backtrack "
+         "cur-t and never twice; >, >=, < are exact; <= is exact unless the threshold was jumped over (refuted otherwise, witness); the "
+         "once-only clock condition is exact; the last-applied action wins and actions are applied in ascending priority. The model also "
+         "proves (by evaluation) what the CURRENT code does wrong: daily clock-time controls act at 2x the threshold, 'before' clock "
+         "conditions are never true, rules are evaluated at t=0 -- recorded as known findings. Tie decided inside coqc: the (time, status) "
+         "trace of the real simulator equals Sched.run for every generated configuration of controls and rules (exact).",
+    ref="DESIGN.md section 5 C04, Appendix A",
+    note="Trusted: Coq kernel (axiom-free); harness building the same configuration through the API and as a Gallina term. Modelled not "
+         "verified: sim_time as a float holding integers; the hydraulic solve (irrelevant to time conditions; trivial network). Partial: the "
+         "whole-run theorems (a partial step is inserted at exactly t, value persists, highest priority wins across the loop) are established "
+         "by exact trace equality on generated configurations plus the lemma-level proofs, not by a closed proof over the loop.",
+    technique="Coq proof (arithmetic/case analysis on a transcribed scheduler, vm_compute witnesses) + exact trace correspondence")
+
 NOT_YET = {
 }
 
